@@ -507,6 +507,54 @@ def _rename(c, params):
 
 # ---- who-may-write with rename awareness -------------------------------------------------
 
+def method_access(prog, f):
+    """'public' / 'protected' / 'private' of a member function (from the AccessSpecDecl sequence of its class), 'file' for a
+    function in an anonymous namespace or a static free function, else 'public'."""
+    if f.cls and f.cls in prog.records:
+        rec = prog.records[f.cls]["decl"]
+        acc = "private" if rec.get("tagUsed") == "class" else "public"
+        for c in inner(rec):
+            if c.get("kind") == "AccessSpecDecl":
+                acc = c.get("access", acc)
+            elif c.get("kind") in ("CXXMethodDecl", "FunctionTemplateDecl") and c.get("name") == (f.decl.get("name")):
+                if c.get("kind") == "FunctionTemplateDecl" or qt(c) == f.type:
+                    return acc
+        return "private"
+    if "(anonymous namespace)" in f.qname or f.decl.get("storageClass") == "static":
+        return "file"
+    return "public"
+
+
+_CALLERS = {}
+
+
+def callers_of(ctx, f):
+    key = id(ctx)
+    if key not in _CALLERS:
+        m = {}
+        for g in ctx.prog.funcs.values():
+            for _c, h in ctx.eff.callees(g):
+                m.setdefault(h.key, set()).add(g.key)
+        _CALLERS.clear()
+        _CALLERS[key] = m
+    return [ctx.prog.funcs[k] for k in _CALLERS[key].get(f.key, ()) if k in ctx.prog.funcs]
+
+
+def _private_helper_of(ctx, f, allowed, _seen=None):
+    """f is not a listed writer, but it is a private / file-local function whose every caller is a listed writer (or, in turn, such
+    a helper): splitting a listed writer into private pieces does not widen who may write."""
+    _seen = _seen or set()
+    if f.key in _seen:
+        return True
+    _seen = _seen | {f.key}
+    if method_access(ctx.prog, f) not in ("private", "file"):
+        return False
+    cs = callers_of(ctx, f)
+    if not cs:
+        return False
+    return all(c.short in allowed or _private_helper_of(ctx, c, allowed, _seen) for c in cs)
+
+
 def check_writers(ctx, rep, rid, field_q, allowed, label, exclude_class=None, ignore_ctor_init=True):
     """Writers of member field_q must be inside `allowed` (short function names -> reason).
     If an allow-listed function no longer exists at all while an unknown writer appears, the table is stale
@@ -515,7 +563,8 @@ def check_writers(ctx, rep, rid, field_q, allowed, label, exclude_class=None, ig
     if ignore_ctor_init:
         ws = [(f, x, u) for f, x, u in ws if u.why != "constructor initialiser" or f.short in allowed or True]
     existing = {f.short for f in ctx.prog.funcs.values()}
-    bad = [(f, x, u) for f, x, u in ws if f.short not in allowed and not (ignore_ctor_init and u.why == "constructor initialiser")]
+    bad = [(f, x, u) for f, x, u in ws if f.short not in allowed and not (ignore_ctor_init and u.why == "constructor initialiser")
+           and not _private_helper_of(ctx, f, allowed)]
     vanished = [a for a in allowed if a not in existing]
     if bad and vanished:
         f, x, u = bad[0]
@@ -597,3 +646,115 @@ def nonempty_fact(c, val):
         if (op == ">" and n >= 0) or (op == ">=" and n >= 1) or (op == "!=" and n == 0) or (op == "==" and n >= 1):
             return a[2]
     return None
+
+
+def member_q(prog, cls_q, name, type_pred=None, why=""):
+    """Qualified name of a data member, robust to a rename: the member called `name` if it exists, otherwise the *unique*
+    member of the class whose declared type satisfies type_pred. Raises AnalysisBroken when neither identifies one member."""
+    from ..frontend import AnalysisBroken
+    r = prog.records.get(cls_q)
+    if not r:
+        raise AnalysisBroken("class %s not found" % cls_q)
+    if name in r["fields"]:
+        return cls_q + "::" + name
+    if type_pred is not None:
+        cand = [n for n, fd in r["fields"].items() if type_pred(qt(fd))]
+        if len(cand) == 1:
+            return cls_q + "::" + cand[0]
+    raise AnalysisBroken("member %s::%s not found and not identifiable by its type%s" % (cls_q, name, (" (" + why + ")") if why else ""))
+
+
+# ---- thin forwarders to a shared helper (merged X/Y variants) ---------------------------------------------
+
+def forwarding_target(ctx, f, _depth=0):
+    """If f only forwards (`return helper(args..., literal...)`), return (helper, {helper parameter id: literal canon}) so that a
+    rule anchored at f can look at the code that does the work, specialised for the literals f passes. Otherwise (f, {})."""
+    if f.body is None or _depth > 2:
+        return f, {}
+    stmts = [c for c in inner(f.body) if isinstance(c, dict) and c.get("kind")]
+    if len(stmts) != 1 or stmts[0].get("kind") != "ReturnStmt" or not children(stmts[0]):
+        return f, {}
+    e = strip(children(stmts[0])[0])
+    while e.get("kind") in ("CXXConstructExpr", "ExprWithCleanups", "MaterializeTemporaryExpr", "CXXBindTemporaryExpr") and len(children(e)) == 1:
+        e = strip(children(e)[0])
+    if e.get("kind") not in ("CallExpr", "CXXMemberCallExpr"):
+        return f, {}
+    _c, hs = ctx.eff.resolve_callee(e)
+    hs = [h for h in hs if h.body is not None and h.key != f.key]
+    if len(hs) != 1:
+        return f, {}
+    h = hs[0]
+    env = {}
+    for i, a in enumerate(callee_info(e)["args"]):
+        ca = canon(a)
+        if ca[0] == "lit" and i < len(h.params):
+            env[h.params[i].get("id")] = ca
+    if not env:
+        return f, {}
+    h2, env2 = forwarding_target(ctx, h, _depth + 1)
+    if h2 is not h:
+        return h2, env2
+    return h, env
+
+
+def specialise(c, env):
+    """Substitute parameters bound to literals and fold ?: on a literal condition."""
+    if not isinstance(c, tuple) or not env:
+        return c
+    if c and c[0] == "var" and c[1] in env:
+        return env[c[1]]
+    c2 = tuple(specialise(x, env) if isinstance(x, tuple) else x for x in c)
+    if c2 and c2[0] == "cond" and c2[1][0] == "lit" and isinstance(c2[1][1], bool):
+        return c2[2] if c2[1][1] else c2[3]
+    if c2 and c2[0] == "un" and c2[1] == "!" and c2[2][0] == "lit" and isinstance(c2[2][1], bool):
+        return ("lit", not c2[2][1])
+    return c2
+
+
+def is_dead_under(node, func, env):
+    """The AST node lies in an arm of a ?: / if whose condition is decided the other way by the literal bindings env."""
+    if not env:
+        return False
+    child, p = node, node.get("_p")
+    while p is not None and p is not func.body:
+        k = p.get("kind")
+        if k == "ConditionalOperator":
+            ch = children(p)
+            if len(ch) == 3 and child is not ch[0]:
+                cv = specialise(canon(ch[0]), env)
+                if cv[0] == "lit" and isinstance(cv[1], bool):
+                    if (cv[1] and child is ch[2]) or (not cv[1] and child is ch[1]):
+                        return True
+        elif k == "IfStmt":
+            ch = [c for c in inner(p) if isinstance(c, dict)]
+            i = (1 if p.get("hasInit") else 0) + (1 if p.get("hasVar") else 0)
+            if len(ch) > i + 1 and child is not ch[i]:
+                cv = specialise(canon(ch[i]), env)
+                if cv[0] == "lit" and isinstance(cv[1], bool):
+                    if (cv[1] and len(ch) > i + 2 and child is ch[i + 2]) or (not cv[1] and child is ch[i + 1]):
+                        return True
+        child, p = p, p.get("_p")
+    return False
+
+
+def inline_getters(ctx, c, _depth=0):
+    """Replace calls to trivial const member functions (`T f() const { return <expr over members>; }`, no parameters) by their
+    body, with `this` replaced by the object expression: `b.length()` becomes `b.maxPos - b.minPos`."""
+    if not isinstance(c, tuple) or _depth > 6:
+        return c
+    c = tuple(inline_getters(ctx, x, _depth + 1) if isinstance(x, tuple) else x for x in c)
+    if c and c[0] == "call" and len(c) == 3 and isinstance(c[1], str) and "::" in c[1]:
+        fs = [f for f in ctx.prog.funcs_by_q.get(c[1], []) if not f.params and f.body is not None]
+        if len(fs) == 1:
+            stmts = [x for x in inner(fs[0].body) if isinstance(x, dict) and x.get("kind")]
+            if len(stmts) == 1 and stmts[0].get("kind") == "ReturnStmt" and children(stmts[0]):
+                body = canon(children(stmts[0])[0])
+                if not any(t[0] in ("call",) and t[1] == c[1] for t in subterms(body)):
+                    def sub(t):
+                        if t == ("this",):
+                            return c[2]
+                        if isinstance(t, tuple):
+                            return tuple(sub(x) if isinstance(x, tuple) else x for x in t)
+                        return t
+                    return inline_getters(ctx, sub(body), _depth + 1)
+    return c
